@@ -756,7 +756,7 @@ def r8(R, m):
     R.rule("C14.R8", "sparse_frame.to_dense: every cell of the returned image that is not a pixel of the frame is zero on every path - a "
                      "caller-supplied 'out' is overwritten as a whole (coo_matrix.todense(out=)) or zero-filled before the pixels are scattered into it")
     q = "sparse_frame.to_dense"
-    fn = m.func(q)
+    fn = m.ifunc(q)
     params = [a.arg for a in fn.args.args]
     cfg = pyfacts.PyCFG(fn)
     import networkx as nx
